@@ -326,6 +326,47 @@ func GenWorld(t *rapid.T, maxEnt int, o ValOpts) World {
 		}
 		w.Store = append(w.Store, e)
 	}
+	// Now and then a deeper hierarchy over the same universe (two-parent entities whose parents have parents, a dangling
+	// parent, a cycle): a -> {b, x}, b -> {c, ghost}, x -> {c, y}, c -> {d}, y -> {d, a}. Reachability questions that need more
+	// than one step, a work list with several pending ancestors or a dead end only arise on such stores.
+	if maxEnt >= 4 && chance(t, 25, "deepstore") {
+		a, b, c, d := ir.Ent("T1", "a"), ir.Ent("T1", "b"), ir.Ent("T1", "c"), ir.Ent("T1", "d")
+		x, y, ghost := ir.Ent("NS::T2", "a"), ir.Ent("NS::T2", "b"), ir.Ent("NS::T2", "zz")
+		link := func(child ir.Value, parents ...ir.Value) {
+			for i := range w.Store {
+				if ir.Equal(w.Store[i].UID, child) {
+					for _, p := range parents {
+						dup := false
+						for _, q := range w.Store[i].Parents {
+							dup = dup || ir.Equal(p, q)
+						}
+						if !dup {
+							w.Store[i].Parents = append(w.Store[i].Parents, p)
+						}
+					}
+					return
+				}
+			}
+			w.Store = append(w.Store, ir.Entity{UID: child, Parents: parents})
+		}
+		link(a, b, x)
+		link(b, c, ghost)
+		link(x, c, y)
+		link(c, d)
+		if chance(t, 50, "deepcycle") {
+			link(y, d, a)
+		} else {
+			link(y, d)
+		}
+		link(d)
+		// hang one of the generated entities below the top of the structure, so that requests reach it
+		if len(w.Store) > 0 && chance(t, 70, "deephang") {
+			i := rapid.IntRange(0, len(w.Store)-1).Draw(t, "deephangidx")
+			if w.Store[i].UID.T != ActionType {
+				link(w.Store[i].UID, a)
+			}
+		}
+	}
 	w.Req = GenRequest(t, &w, o)
 	return w
 }
